@@ -9,4 +9,6 @@ for p in C01 C02 C03 C04 C05 C06 C07 C08 C09 C10 C11 C12 C13 C14 C15 C16 C17 C18
   e=$(date +%s)
   echo "$p rc=$rc $((e-s))s :: $(echo "$out" | tail -1)"
   echo "$out" | grep VIOLATION
+  [ $rc = 0 ] || FAIL=1
 done
+exit ${FAIL:-0}
